@@ -148,6 +148,24 @@ fn inject_json_methods(methods: &mut HashMap<String, MethodInfo>, type_name: &st
     }
 }
 
+/// Inject `clone(self) -> TypeName`: `Clone` is auto-derived for every model/class (see the derives reference), so
+/// `value.clone()` must typecheck even though the Rust `Clone` impl is generated by the backend.
+fn inject_clone_method(methods: &mut HashMap<String, MethodInfo>, type_name: &str) {
+    if methods.contains_key("clone") {
+        return;
+    }
+    methods.insert(
+        "clone".to_string(),
+        MethodInfo {
+            receiver: Some(Receiver::Immutable),
+            params: vec![],
+            return_type: ResolvedType::Named(type_name.to_string()),
+            is_async: false,
+            has_body: true,
+        },
+    );
+}
+
 /// Inject a `TypeName.new(...) -> Result[TypeName, E]` constructor for `@derive(Validate)` models.
 ///
 /// This is a *typechecker-only* method injection to allow `User.new(...)` calls to typecheck even though the backend
@@ -441,6 +459,7 @@ impl TypeChecker {
         // Inject JSON methods based on derives
         let derives = Self::extract_derive_names(&model.decorators);
         inject_json_methods(&mut methods, &model.name, &derives);
+        inject_clone_method(&mut methods, &model.name);
         let field_order: Vec<Ident> = model.fields.iter().map(|f| f.node.name.clone()).collect();
         inject_validate_methods(&mut methods, &model.name, &fields, &field_order, &derives);
 
@@ -471,6 +490,7 @@ impl TypeChecker {
         // Inject JSON methods based on derives
         let derives = Self::extract_derive_names(&class.decorators);
         inject_json_methods(&mut methods, &class.name, &derives);
+        inject_clone_method(&mut methods, &class.name);
 
         self.symbols.define(Symbol {
             name: class.name.clone(),
